@@ -139,6 +139,28 @@ def ref_paste(src, dshape, r, A, sn, dn):
     return out, w
 
 
+def ref_paste_into(cur, src, r, A, sn, dn, init, collide=None):
+    """reference for one warp INTO an existing destination `cur` (2-D): with init_dest_nodata the destination is first
+    filled with the effective nodata; then the block is copied (mirrored), source-nodata pixels leave the destination
+    as it is"""
+    dt = src.dtype.name
+    w = eff_dst_nodata(dt, sn, dn)
+    out = np.full(cur.shape, w, dtype=cur.dtype) if init else cur.copy()
+    blk = src[r.roi_src]
+    if A.e < 0:
+        blk = blk[::-1, :]
+    if A.a < 0:
+        blk = blk[:, ::-1]
+    valid = np.ones(blk.shape, dtype=bool) if sn is None else ~same_val(blk, sn)
+    tgt = out[r.roi_dst]
+    tgt[valid] = blk[valid]
+    # pixels that now hold a VALID source value equal to the destination nodata (GDAL nudges those)
+    collide = np.zeros(cur.shape, dtype=bool) if (init or collide is None) else collide.copy()
+    ctg = collide[r.roi_dst]
+    ctg[valid] = same_val(blk, w)[valid]
+    return out, collide
+
+
 def do_paste(src, dshape, r, A, nodata):
     """what a consumer of ReprojectInfo does when paste_ok and read_shrink == 1"""
     out = np.full(dshape, nodata, dtype=src.dtype)
@@ -166,7 +188,7 @@ def run(R: Run):
         return GeoBox(wh_(shape[1], shape[0]), A, crs)
 
     # ================================================================ exact stream: numeric helpers
-    tols = [2**-6, 2**-5, 1e-3, 0.25, 0.5, 0.75, 2**-10]
+    tols = [2**-6, 2**-5, 1e-3, 0.25, 0.5, 0.75, 2**-10, 0.0, 2.0**-40, 0.5 + 2.0**-30, 0.625, 0.9, 1.0, 1.5, 3.0, 2.0**20, -0.25]
     K = R.pick(160, 320)
     for k in range(-K, K + 1):
         x = k / 64
@@ -230,8 +252,8 @@ def run(R: Run):
 
     for _ in range(R.pick(4000, 40000)):
         A, kind = rnd_aff()
-        ttol = rng.choice([0.05, 0.05, 2**-5, 2**-4, 0.26, 0.5])
-        stol = rng.choice([1e-3, 1e-3, 2**-10, 2**-11, 2**-9, 1e-2, 1e-2, 2**-7, 1e-4, 1e-6])
+        ttol = rng.choice([0.05, 0.05, 2**-5, 2**-4, 0.26, 0.5] + c03.TTOL_EXACT)
+        stol = rng.choice([1e-3, 1e-3, 2**-10, 2**-11, 2**-9, 1e-2, 1e-2, 2**-7, 1e-4, 1e-6, 0.0, 0.125, 0.3, 0.5, 0.75])
         R.corr(f"c10 isst {aff_s(A)}", lambda: bool_s(M.is_affine_st(A)), sig="isst|" + kind)
         exact_snap = all(abs(v) >= 1 - stol or Fraction(v).numerator in (1, -1) or abs(v) < stol for v in (A.a, A.e))
         if exact_snap:
@@ -256,7 +278,7 @@ def run(R: Run):
             case = {"fn": "_can_paste", "A": list(A)[:6], "stol": stol, "ttol": ttol}
             if rot:
                 R.oracle(not ok, "can-paste-accepts-rotation", case, f"rotation/shear {b},{d} accepted", sig="canpaste-rejects")
-            elif b == 0 and d == 0:
+            elif b == 0 and d == 0 and stq < Fraction(1, 4):  # for larger stol "the" integer scale is ambiguous
                 sc = min(abs(a), abs(e))
                 k = max(1, round(sc))
                 fr = lambda v: abs(v - round(v))  # noqa: E731
@@ -354,13 +376,21 @@ def run(R: Run):
                 Mx = Mx * Affine.scale(rng.choice([1.4, 0.7, 1.1, 2.0, 3.0]))
             kind = "float"
         D = S * Mx
-        ttol = rng.choice([0.05, 0.05, 0.05, 2**-5, 0.26, 0.45]) if ttol_c is None else ttol_c
+        ttol = rng.choice([0.05, 0.05, 0.05, 2**-5, 0.26, 0.45] + c03.TTOL_FLOAT) if ttol_c is None else ttol_c
+        if ttol_c is None and ttol > 0.5 and kind in ("float", "subpix", "shift") and rng.random() < 0.7:
+            # any residue is within such a tolerance: shift by an arbitrary fraction of a pixel
+            D = S * Affine.translation(rng.uniform(-0.5, 0.5), rng.uniform(-0.5, 0.5)) * Mx
         stol = 1e-3 if stol_c is None else stol_c
+        # padding / alignment options are part of the plan's input space
+        if rng.random() < 0.55:
+            pad, al = rng.choice([None, None, 0]), rng.choice([None, None, 0])
+        else:
+            pad, al = rng.choice([None, 0, 1, 2, 5]), rng.choice([None, 0, 1, 2, 4, 16])
         src_g, dst_g = gb(sshape, S), gb(dshape, D)
         case = {"fn": "compute_reproject_roi", "src_shape": sshape, "dst_shape": dshape, "src_affine": list(S)[:6],
-                "dst_affine": list(D)[:6], "ttol": ttol, "stol": stol, "crs": CRS0}
+                "dst_affine": list(D)[:6], "ttol": ttol, "stol": stol, "padding": pad, "align": al, "crs": CRS0}
         try:
-            r = O.compute_reproject_roi(src_g, dst_g, ttol=ttol, stol=stol)
+            r = O.compute_reproject_roi(src_g, dst_g, ttol=ttol, stol=stol, padding=pad, align=al)
         except Exception as e:  # pylint: disable=broad-except
             R.oracle(False, "plan-raises", case, f"compute_reproject_roi raised {type(e).__name__}: {e}", sig="plan|raises")
             continue
@@ -382,7 +412,7 @@ def run(R: Run):
             # completeness is judged for the read-shrink the planner reports (its own 1e-3 rule): for stol > 1e-3 a scale in
             # (k - stol, k - 1e-3) is read at k-1 and therefore (soundly) not pasteable
             k = rs
-            clearly_ok = (b == 0 and d == 0 and abs(abs(a) / k - 1) < stq - slack and abs(abs(e) / k - 1) < stq - slack
+            clearly_ok = (pad in (None, 0) and al in (None, 0) and b == 0 and d == 0 and abs(abs(a) / k - 1) < stq - slack and abs(abs(e) / k - 1) < stq - slack
                           and fr(c / k) < ttq - slack and fr(f / k) < ttq - slack and fr(min(abs(a), abs(e))) < stq - slack)
             R.oracle(not clearly_ok, "paste-rejected-within-tolerance", case,
                      f"paste_ok False although dst→src transform {[float(v) for v in A6]} is within the tolerances",
@@ -392,8 +422,10 @@ def run(R: Run):
             R.count("plan|nopaste|" + kind)
             continue
         R.oracle((ys.stop - ys.start, xs.stop - xs.start) == (rs * (yd.stop - yd.start), rs * (xd.stop - xd.start)),
-                 "paste-src-shape-not-shrink-times-dst", case, f"paste_ok read_shrink={rs} roi_src={r.roi_src} roi_dst={r.roi_dst}",
-                 sig="plan|paste-shape")
+                 "paste-src-shape-not-shrink-times-dst", case,
+                 f"paste_ok read_shrink={rs} padding={pad} align={al} roi_src={r.roi_src} roi_dst={r.roi_dst}", sig="plan|paste-shape")
+        R.oracle(pad in (None, 0) and al in (None, 0), "paste-ok-with-padding-or-align", case,
+                 f"paste_ok reported although padding={pad} align={al} were requested", sig="plan|paste-tight")
         if rs > 1:
             # --- planned source region = overview region scaled by k, same shape as the destination region
             stats["pasteK"] += 1
@@ -453,6 +485,67 @@ def run(R: Run):
             src = make_src(rng, sshape, "int16")
             R.corr(f"c10 paste {dshape[0]} {dshape[1]} {bool_s(A.e < 0)} {bool_s(A.a < 0)} {ns(ys)} {ns(xs)} {ns(yd)} {ns(xd)} "
                    f"-999 {img_s(src)}", lambda: img_s(do_paste(src, dshape, r, A, -999)), sig="paste-op|" + kind)
+
+    # --- mosaics: sequences of warps into ONE shared, pre-filled destination (destination pre-state x dtype x options)
+    for i in range(R.pick(160, 1600)):
+        dt = DTYPES[i % len(DTYPES)]
+        dshape = (rng.randint(6, 28), rng.randint(6, 28))
+        resm = rng.choice([10, 30, 0.5, 0.00025, 1000.0])
+        D = Affine.translation(resm * rng.randint(-3000, 3000), resm * rng.randint(-3000, 3000)) * Affine.scale(resm, -resm)
+        dst_g = gb(dshape, D)
+        sn, dn = nodata_config(rng, dt)
+        nb = rng.choice([0, 0, 2])  # 0: plain 2-D rasters, otherwise (band, y, x) stacks
+        pre = [content_src(rng, dshape, dt, sn, dn) for _ in range(max(1, nb))]  # arbitrary earlier content, not only nodata
+        W = np.stack(pre) if nb else pre[0].copy()
+        E = [p_.copy() for p_ in pre]
+        steps = []
+        COL = [None] * max(1, nb)
+        bad = None
+        for t in range(rng.choice([2, 2, 3])):
+            sshape = (rng.randint(3, 20), rng.randint(3, 20))
+            sg = (rng.choice([1, 1, 1, -1]), rng.choice([1, 1, 1, -1]))
+            tx, ty = rng.randint(-sshape[1] + 1, dshape[1] - 1), rng.randint(-sshape[0] + 1, dshape[0] - 1)
+            rsd = rng.choice([0, 0, 0.02, -0.03])
+            # src pixel -> dst pixel: whole-pixel shift (+ tiny residue), optionally mirrored
+            P = Affine.translation(tx + rsd + (sshape[1] if sg[0] < 0 else 0), ty + (sshape[0] if sg[1] < 0 else 0)) * Affine.scale(*sg)
+            src_g = gb(sshape, D * P)
+            init = rng.choice([False, False, True]) if t > 0 else rng.choice([False, True])
+            steps.append({"src_shape": sshape, "src_affine": list(src_g.transform)[:6], "init_dest_nodata": init})
+            try:
+                r = O.compute_reproject_roi(src_g, dst_g)
+                if not (r.paste_ok and r.read_shrink == 1):
+                    bad = f"tile {t}: whole-pixel shifted tile not pasteable (paste_ok={r.paste_ok}, read_shrink={r.read_shrink})"
+                    break
+                A = r.transform.back.linear
+                srcs = [content_src(rng, sshape, dt, sn, dn) for _ in range(max(1, nb))]
+                rio_reproject(np.stack(srcs) if nb else srcs[0], W, src_g, dst_g, "nearest", src_nodata=sn, dst_nodata=dn,
+                              init_dest_nodata=init)
+                for bnd in range(max(1, nb)):
+                    E[bnd], COL[bnd] = ref_paste_into(E[bnd], srcs[bnd], r, A, sn, dn, init, COL[bnd])
+            except Exception as ex:  # pylint: disable=broad-except
+                bad = f"tile {t}: {type(ex).__name__}: {ex}"
+                break
+        case = {"fn": "mosaic", "dtype": dt, "dst_shape": dshape, "dst_affine": list(D)[:6], "src_nodata": repr(sn),
+                "dst_nodata": repr(dn), "bands": nb, "steps": steps, "crs": CRS0}
+        if bad is not None:
+            R.oracle(False, "mosaic-raises", case, bad, sig="mosaic|raises")
+            continue
+        Es = np.stack(E) if nb else E[0]
+        if dt.startswith("float"):
+            neq = ~((Es == W) | (np.isnan(Es) & np.isnan(W)))
+        else:
+            neq = Es != W
+        key = "mosaic-warp-differs-from-paste"
+        what = ""
+        if neq.any():
+            idx = tuple(np.argwhere(neq)[0])
+            what = (f"{int(neq.sum())} of {neq.size} pixels differ after {len(steps)} warps into one destination, first at {idx}: "
+                    f"paste {Es[idx]} warp {W[idx]} (dtype {dt}, src_nodata={sn}, dst_nodata={dn}, "
+                    f"init_dest_nodata={[st['init_dest_nodata'] for st in steps]})")
+            cmask = np.stack(COL) if nb else COL[0]
+            if (neq <= cmask).all():
+                key = "paste-differs-from-warp-valid-pixel-equals-dst-nodata"
+        R.oracle(not neq.any(), key, case, what, sig=f"mosaic|{dt}|bands{nb}|" + "".join("T" if st["init_dest_nodata"] else "F" for st in steps))
 
     # --- grids in CRSs WITHOUT an EPSG code (same or different), after arbitrary earlier calls on the CRS objects
     from odc.geo.crs import CRS
@@ -553,6 +646,35 @@ def replay(R: Run, rec) -> int:
         A = Affine(*case["A"])
         print("_can_paste ->", O._can_paste(A, stol=case["stol"], ttol=case["ttol"]))
         return 1
+    if case.get("fn") == "mosaic":
+        from ast import literal_eval
+
+        def val(t):
+            return float("nan") if t == "nan" else literal_eval(t)
+
+        dt, ds, nb = case["dtype"], tuple(case["dst_shape"]), case["bands"]
+        sn, dn = val(case["src_nodata"]), val(case["dst_nodata"])
+        D = Affine(*case["dst_affine"])
+        dst_g = GeoBox(wh_(ds[1], ds[0]), D, case["crs"])
+        pre = [content_src(R.rng, ds, dt, sn, dn) for _ in range(max(1, nb))]
+        W = np.stack(pre) if nb else pre[0].copy()
+        E, COL = [p_.copy() for p_ in pre], [None] * max(1, nb)
+        for st in case["steps"]:
+            ss = tuple(st["src_shape"])
+            src_g = GeoBox(wh_(ss[1], ss[0]), Affine(*st["src_affine"]), case["crs"])
+            r = O.compute_reproject_roi(src_g, dst_g)
+            srcs = [content_src(R.rng, ss, dt, sn, dn) for _ in range(max(1, nb))]
+            rio_reproject(np.stack(srcs) if nb else srcs[0], W, src_g, dst_g, "nearest", src_nodata=sn, dst_nodata=dn,
+                          init_dest_nodata=st["init_dest_nodata"])
+            for b_ in range(max(1, nb)):
+                E[b_], COL[b_] = ref_paste_into(E[b_], srcs[b_], r, r.transform.back.linear, sn, dn, st["init_dest_nodata"], COL[b_])
+        Es = np.stack(E) if nb else E[0]
+        neq = ~((Es == W) | ((Es != Es) & (W != W)))
+        cm = np.stack(COL) if nb else COL[0]
+        other = neq & ~cm
+        print(f"{int(neq.sum())} of {neq.size} pixels differ between sequential warps and sequential pastes "
+              f"({int(other.sum())} of them are not valid-pixel-equals-dst-nodata collisions)")
+        return 1 if (other.any() if key == "mosaic-warp-differs-from-paste" else neq.any()) else 0
     if case.get("fn") != "compute_reproject_roi":
         return 0
     from odc.geo.crs import CRS
@@ -562,7 +684,8 @@ def replay(R: Run, rec) -> int:
     ca, cb = CRS(case.get("src_crs", case.get("crs", CRS0))), CRS(case.get("dst_crs", case.get("crs", CRS0)))
     c03.apply_history(case.get("history", []), ca, cb)
     src_g, dst_g = GeoBox(wh_(ss[1], ss[0]), S, ca), GeoBox(wh_(ds[1], ds[0]), D, cb)
-    r = O.compute_reproject_roi(src_g, dst_g, ttol=case.get("ttol", 0.05), stol=case.get("stol", 1e-3))
+    r = O.compute_reproject_roi(src_g, dst_g, ttol=case.get("ttol", 0.05), stol=case.get("stol", 1e-3),
+                                padding=case.get("padding"), align=case.get("align"))
     if key in ("paste-ok-for-different-crs", "crs-sameness-misjudged"):
         print("paste_ok", r.paste_ok, "planned as same-CRS pair:", r.transform.linear is not None)
         return 1 if (r.paste_ok or r.transform.linear is not None) else 0
